@@ -855,9 +855,19 @@ Ignored == {"conn.new", "tmo.set", "tmo.fire", "rpc.finish", "rpc.recv", "rpc.dr
 (* C09: a connection lost without a word (both directions cut) is reported lost no later than  *)
 (* the node's own idle timeout (+ one keep-alive interval: the first ping after the last      *)
 (* receipt restarts the timer once)                                                            *)
+(* The survivor's idle timer restarts once more when it sends its first ack-eliciting packet  *)
+(* after the last receipt (RFC 9000 10.1) - a keep-alive, a request, a probe - and then runs   *)
+(* out: the deadline counts from the first datagram the node sent towards the peer after the   *)
+(* cut (path reports, at most one per 200 ms), or from the cut if it sent nothing.             *)
+FirstSendAfter(n, o, since) ==
+  LET S == {i \in (runStart + 1)..(l - 1) :
+              /\ Rec[i].ev = "obs.path" /\ Rec[i].t > since
+              /\ Rec[i].src \in DOMAIN addrNode /\ Rec[i].dst \in DOMAIN addrNode
+              /\ addrNode[Rec[i].src] = n /\ addrNode[Rec[i].dst] = o}
+  IN IF S = {} THEN since ELSE Rec[Min(S)].t
 TrSilentEnd ==
   /\ IsEvent("obs.silent_end")
-  /\ (Cur.t - Cur.since >= idle[N] + EffKa(N, Cur.other) + 2000) => ~Cur.listed
+  /\ (Cur.t - FirstSendAfter(N, Cur.other, Cur.since) >= idle[N] + 2000) => ~Cur.listed
   /\ UNCHANGED <<vars, pendEv, conns, tasks, spawnQ, nextTick, phase, subs, subPos, addrNode,
                  lastAdd, replies, closeT, faultT, idle, ka, runStart, lastSend, quietLen,
                  callListed, pathOut, pathIn, closingH, beginT, shutIdle>>
